@@ -12,6 +12,8 @@ CONSTANTS
   MaxVariants = 1
   MinEmit = 1
   SimMode = FALSE
+  VarLens = {0}
+  VarW = {1, 2, 3}
 INVARIANT InvWellFormed
 INVARIANT InvTiles
 INVARIANT InvOrdered
